@@ -9,7 +9,8 @@ from sqlparse import sql
 from sqlparse import tokens as T
 from sqlparse.utils import recurse, imt
 
-T_NUMERICAL = (T.Number, T.Number.Integer, T.Number.Float)
+T_NUMERICAL = (T.Number, T.Number.Integer, T.Number.Float,
+               T.Number.Hexadecimal)
 T_STRING = (T.String, T.String.Single, T.String.Symbol)
 T_NAME = (T.Name, T.Name.Placeholder)
 
